@@ -104,7 +104,7 @@ def gen_defn(rng, tier, i=0):
         return gen.linear_in_state_program(rng, n_state=(2, 4), n_control=(1, 3), n_calib=(0, 2), n_sensor=(1, 2),
                                            n_reading=(1, 3), depth=1, n_shared=(0, 0))
     return gen.program(rng, n_state=(1, 5), n_control=(0, 3), n_calib=(0, 3), n_sensor=(1, 3),
-                       n_reading=(1, 4), depth=2 if rng.random() < 0.6 else 3, n_shared=(0, 2))
+                       n_reading=(1, 4), depth=2 if rng.random() < 0.6 else 3, n_shared=(0, 2), wraps=(i % 8 == 2))
 
 
 def rectangular(defn):
